@@ -89,6 +89,10 @@ var errErrorInMessageHandler = StringValue("error in error handling")
 func (t *Thread) RunContinuation(c Cont) (err error) {
 	var next Cont
 	var errContCount = 0
+	// A nested run (e.g. a metamethod called synchronously) must not leave its
+	// last continuation behind as the thread's current continuation.
+	prevCont := t.currentCont
+	defer func() { t.currentCont = prevCont }()
 	_ = t.triggerCall(t, c)
 	for c != nil {
 		if t != t.gcThread {
